@@ -5,6 +5,7 @@
 import Vise.Db
 import Vise.Gen.Fn.Db_Safe
 import Vise.Gen.Fn.Db_CheckPut
+import Vise.Gen.Fn.Db_SetLock
 
 namespace Vise.Tie
 
@@ -18,7 +19,28 @@ theorem checkPut_tie (c : DbCtx) : GenFn.db_CheckPut c.lock c.pfx = c.checkPut :
   unfold GenFn.db_CheckPut DbCtx.checkPut
   rfl
 
+/-- `SetLock` (with `defaultLock` inlined): error on a sealed store, sealing with every read-only type locked,
+locking and unlocking a mask of types. `pfx` and the lock field are `uint8`. -/
+theorem setLock_tie (c : DbCtx) (pfx : Nat) (lock : Bool) (hp : pfx < 256) (hl : c.lock < 256) :
+    GenFn.db_SetLock pfx lock c.lock c.isSealed =
+      (match c.setLock pfx lock with
+       | .ok c' => ("", c'.lock, c'.isSealed)
+       | _ => ("errorf", c.lock, c.isSealed)) := by
+  unfold GenFn.db_SetLock DbCtx.setLock
+  by_cases hs : c.isSealed
+  · simp [hs]
+  · by_cases h0 : pfx = 0
+    · simp [hs, h0, Facts.safeLock]
+    · cases lock
+      · have e1 : pfx % 256 = pfx := Nat.mod_eq_of_lt hp
+        have e2 : (255 - pfx) % 256 = 255 - pfx := Nat.mod_eq_of_lt (by omega)
+        simp [hs, h0, e1, e2]
+      · have e : (c.lock ||| pfx) % 256 = c.lock ||| pfx :=
+          Nat.mod_eq_of_lt (Nat.or_lt_two_pow (n := 8) hl hp)
+        simp [hs, h0, e]
+
 end Vise.Tie
 
 #print axioms Vise.Tie.safe_tie
 #print axioms Vise.Tie.checkPut_tie
+#print axioms Vise.Tie.setLock_tie
